@@ -17,7 +17,8 @@ RULE = ("each case is a pair of fresh interpreters: P1 runs a random interleavin
         "library's memo tables.  distinct = (units, declaration shapes, positions of queries relative to declarations); "
         "non-trivial = at least one final query was also asked before a declaration that changes its answer"
         " Every fourth history is over scales with a zero point and compound units around them, every fourth over power-defined user units against shipped named units (questions in both directions); odd declarations (across dimensions, overflowing ratios) and switches of the ambient decimal precision occur in between; finally pairs of questions, corrections and level() calls are run by two threads under the deterministic scheduler (random schedules, and every line of equate/_forget_plans/convert for one preemption) against exact expected answers."
-        " Every eighth history is a ring of equivalences that does not close exactly (two routes, measurably different numbers), and questions are also asked with little stack to spare right after the last declaration.")
+        " Every eighth history is a ring of equivalences that does not close exactly (two routes, measurably different numbers), and questions are also asked with little stack to spare right after the last declaration."
+        " Level questions, Decimal units of derived dimensions under coarse contexts, and histories in which an anonymous product gets a name between two askings are part of the mix.")
 ASSUMPTIONS = [
     "the baseline is a fresh interpreter that never asked anything before the final queries, so no knowledge of which "
     "caches exist is needed for the deciding comparison",
